@@ -20,6 +20,7 @@ type TypeModel struct {
 // @immutable
 type TypeMethod struct {
 	Name              string
+	ID                string // types.Func.Id(): unexported names are qualified by their package
 	Inputs            []MethodType
 	Outputs           []MethodType
 	ReceiverIsPointer bool // true if receiver is *T, false if T
@@ -33,6 +34,7 @@ type MethodType struct {
 	TypePackage string
 	IsPointer   bool
 	IsVariadic  bool
+	Type        types.Type // the parameter/result type itself (nil in hand-built models)
 }
 
 // LoadTypes loads specified named types from the current package
@@ -130,8 +132,12 @@ func getUnderlyingTypeName(t types.Type) string {
 func extractMethodsFromNamedType(named *types.Named) []TypeMethod {
 	var methods []TypeMethod
 
-	// Get method set for *T (includes both T and *T receivers)
-	ptrType := types.NewPointer(named)
+	// Get method set for *T (includes both T and *T receivers).
+	// A pointer to an interface type has no methods: an interface type is its own method set.
+	var ptrType types.Type = types.NewPointer(named)
+	if types.IsInterface(named) {
+		ptrType = named
+	}
 	methodSet := types.NewMethodSet(ptrType)
 	valueMethodSet := types.NewMethodSet(named)
 
@@ -146,6 +152,7 @@ func extractMethodsFromNamedType(named *types.Named) []TypeMethod {
 
 		methods = append(methods, TypeMethod{
 			Name:              method.Name(),
+			ID:                method.Id(),
 			Inputs:            extractMethodTypesFromTuple(sig.Params(), sig.Variadic()),
 			Outputs:           extractMethodTypesFromTuple(sig.Results(), false),
 			ReceiverIsPointer: recvIsPointer,
@@ -183,6 +190,8 @@ func extractMethodTypesFromTuple(tuple *types.Tuple, isVariadic bool) []MethodTy
 				result[i].IsVariadic = true
 			}
 		}
+
+		result[i].Type = param.Type()
 	}
 
 	return result
